@@ -58,6 +58,20 @@ PROPS = {
                          "cidr_match by exact correspondence", "recording connectors and in-memory duplex streams stand for upstreams and the client"],
         "assumptions": ["std::net / crate cidr text parsers behave as modelled (sampled by the correspondence)"],
     },
+    "C15": {
+        "props_module": "Redproxy.Props.C15",
+        "mode": "c15", "model_mode": "c02",
+        "session_start": "W ",
+        "rule": "histories against one GlobalState: an initial valid list, then 2-6 steps each a reload with exactly one bad rule (syntax error / "
+                "non-boolean or ill-typed filter / unknown upstream) at a random position, a valid reload, or GET /rules -> POST unchanged (the API's "
+                "JSON), each followed by probe requests through the real process_request; then a concurrent phase (16 tasks x 40 requests racing "
+                "with a task that swaps two lists as fast as it can, multi-thread runtime) where every decision must be the old or the new list's; "
+                "a history is non-trivial if it holds >= 3 lines; distinct = distinct histories",
+        "nontrivial_min_lines": 3,
+        "trusted_base": ["router model Redproxy/Model/Route.lean (setRules, stepL/runL lock model) tied to set_rules / process_request by correspondence",
+                         "tokio RwLock: a write lock is granted only while no read guard is held (assumed in stepL)"],
+        "assumptions": ["the concurrent phase samples schedules; the all-schedules statement is the theorem decided_by_one_version about the lock model"],
+    },
     "C08": {
         "props_module": "Redproxy.Props.C08",
         "mode": "c08",
